@@ -293,7 +293,11 @@ def modelledReaders : List String :=
    "Conn.readOffset", "Conn.readResponse", "Conn.writeCompressedMessages",
    "Conn.ApiVersions", "Conn.readApiVersions",
    "Conn.waitResponse", "Conn.peekResponseSizeAndID", "Conn.skipResponseSizeAndID", "Conn.do", "Conn.abortRead",
-   "Conn.ReadBatchWith", "Batch.close"]
+   "Conn.ReadBatchWith", "Batch.close",
+   -- the exported entry points of those operations (a renamed unexported helper is accepted through its callers)
+   "Conn.ReadOffset", "Conn.ReadFirstOffset", "Conn.ReadLastOffset", "Conn.ReadOffsets", "Conn.Brokers", "Conn.Controller",
+   "Conn.ReadPartitions", "Conn.readPartitionsResponse", "Conn.CreateTopics", "Conn.DeleteTopics",
+   "Conn.WriteCompressedMessages", "Conn.WriteCompressedMessagesAt", "Conn.ReadBatch"]
 
 def readerAccepted (u : String × List String) : Bool :=
   modelledReaders.contains u.1 || (!u.2.isEmpty && u.2.all modelledReaders.contains)
@@ -546,6 +550,17 @@ theorem d2_fetch_regression_counterexample :
     fetchRead false 10 0 idealBody ⟨fetchErrV10, fetchErrV10.length⟩ = (.kafka 6, ⟨[0,0,0,9, 0,0,0,0], 8⟩) ∧
     fetchRead true 10 0 idealBody ⟨fetchErrV10, fetchErrV10.length⟩ = (.kafka 6, ⟨[], 0⟩) := by decide
 
+/-- C02-D33: a reader that stops on a broker-reported error (or whose caller closes the batch early) leaves the rest of
+the response to `Batch.close`; when that cannot be skipped — here the stream ends 3 bytes short — the code before the fix
+dropped the error of `msgs.discard()`: kafka error 7, Conn KEPT in mid-response (first line); now: failed and closed. -/
+def stopsEarly : Body := { first := fun s => (.ok (), s), rest := fun s => (.kafka 7, s) }
+def shortOf3 : Bytes := [0,0,0,40, 0,0,0,1] ++ (atWatermarkBody.take 33)   -- announces 36 bytes, 33 arrive
+theorem batch_close_discard_counterexample :
+    ((connFetch false 2 4 stopsEarly ⟨shortOf3, 1, false⟩).1 = .kafka 7 ∧
+     (connFetch false 2 4 stopsEarly ⟨shortOf3, 1, false⟩).2.closed = false) ∧
+    ((connFetch true 2 4 stopsEarly ⟨shortOf3, 1, false⟩).1.isFail = true ∧
+     (connFetch true 2 4 stopsEarly ⟨shortOf3, 1, false⟩).2.closed = true) := by decide
+
 theorem idealBody_conserves : idealBody.Conserves := by
   constructor
   · intro s; unfold idealBody; simp only; split <;> exact Adv.refl s
@@ -725,6 +740,35 @@ theorem idealBody_local : idealBody.Local := by
     have h2 : ¬ (s.inp ++ rest).length < s.sz := by simp only [List.length_append]; omega
     simp only [h1, h2, ↓reduceIte]
     rw [List.drop_append_of_le_length he]
+
+/-- the oracle's reader (`headerBody`: to the end of the set, refusing a set too short for one header) conserves and is
+local: the fetch theorems apply to it -/
+theorem headerBody_conserves : headerBody.Conserves := by
+  refine ⟨fun s => ?_, idealBody_conserves.2⟩
+  simp only [headerBody]
+  split
+  · exact Adv.refl s
+  · split
+    · exact Adv.refl s
+    · split <;> exact Adv.refl s
+
+/-- the header sizes are those of message_reader.go readHeader (regenerated: the readIntN calls before the switch on the
+magic byte plus those of each case) -/
+theorem header_sizes_regenerated :
+    Gen.ConnLegacy.headerSizes = [(0, headerNeed 0), (1, headerNeed 1), (2, headerNeed 2)] := by decide
+
+theorem headerBody_local : headerBody.Local := by
+  refine ⟨fun rest s he => ?_, idealBody_local.2⟩
+  simp only [headerBody, ext]
+  by_cases h17 : s.sz < 17
+  · simp [h17]
+  · have hlen : 16 < s.inp.length := by simp only [Enough] at he; omega
+    have hget : (s.inp ++ rest).getD 16 0 = s.inp.getD 16 0 := by
+      simp [List.getD_eq_getElem?_getD, List.getElem?_append_left hlen]
+    simp only [h17, ↓reduceIte, hget]
+    split
+    · rfl
+    · split <;> rfl
 
 /-- one exchange of a mixed run, abstractly: how it acts on a Conn, what it gives alone, the frame the broker sends -/
 structure Xch where
@@ -975,6 +1019,13 @@ theorem inflight_caller_fails_after_close (lf : LockFacts) (hd : lf.dropsBuffer 
     (topic : Bytes) (c : Conn) (hc : c.closed = true) :
     (connDoL lf true o v topic (c, false)).1 = .fail .eof ∧ (connDoL lf true o v topic (c, false)).2.1.closed = true := by
   simp [connDoL, hd, hc, exitPath]
+
+/-- on an open Conn a request already in flight is served exactly like one issued now: pipelining (responses in request
+order) does not change what a caller gets — the sequence theorems apply to callers in flight as they are -/
+theorem inflight_as_sequential (lf : LockFacts) (o : OpSpec) (v : Nat) (topic : Bytes) (c : Conn) (w : Bool)
+    (hopen : c.closed = false) :
+    connDoL lf true o v topic (c, w) = connDoL lf false o v topic (c, w) := by
+  simp [connDoL, hopen, exitPath]
 
 theorem drops_buffer_holds : Gen.ConnLegacy.lockFacts.dropsBuffer = true := by decide
 
